@@ -187,6 +187,15 @@ struct vval_iterator _ZNSt6vectorIN4bloc5ValueESaIS1_EE3endEv(struct vec_Value *
 struct vval_iterator *_ZN9__gnu_cxx17__normal_iteratorIPN4bloc5ValueESt6vectorIS2_SaIS2_EEEppEv(struct vval_iterator *this) { ITER_IDX(this) = ITER_IDX(this) + 1; return this; }
 _Bool _ZN9__gnu_cxxneIPN4bloc5ValueESt6vectorIS2_SaIS2_EEEEbRKNS_17__normal_iteratorIT_T0_EESC_(const struct vval_iterator *a, const struct vval_iterator *b) { return ITER_IDX(a) != ITER_IDX(b); }
 struct Value *_ZNK9__gnu_cxx17__normal_iteratorIPN4bloc5ValueESt6vectorIS2_SaIS2_EEEdeEv(const struct vval_iterator *this) { (void)this; return &g_tab_elem; }
+/* std::vector<Value>(): empty;  push_back(Value&&): like insert at the end */
+void _ZNSt6vectorIN4bloc5ValueESaIS1_EEC1Ev(struct vec_Value *this) { SZ(this) = 0; CW(this, 0) = 0; CW(this, 2) = 0; }
+void _ZNSt6vectorIN4bloc5ValueESaIS1_EE9push_backEOS1_(struct vec_Value *this, struct Value *v)
+{
+  LIVE(this, 24, "std::vector<Value>::push_back");
+  __CPROVER_assume(SZ(this) < MAXLEN); SZ(this) = SZ(this) + 1;
+  if (__g2c_nondet_bool()) { g_tab_elem._flags = v->_flags; g_tab_elem._type._major = v->_type._major; g_tab_elem._type._minor = v->_type._minor; g_tab_elem._type._level = v->_type._level; g_tab_elem._value.i = v->_value.i; }
+  v->_flags = 0;
+}
 /* std::vector<Value>::insert(pos, Value&&): the new element becomes one of "the elements" (g_tab_elem stands for any of them); the argument is left moved-from */
 struct vval_iterator _ZNSt6vectorIN4bloc5ValueESaIS1_EE6insertEN9__gnu_cxx17__normal_iteratorIPKS1_S3_EEOS1_(struct vec_Value *this, struct vval_citerator pos, struct Value *v)
 {
